@@ -127,16 +127,16 @@ def extract_repo(config="default", repo=None, keep=False):
             shutil.rmtree(out_dir, ignore_errors=True)
 
 
-def extract_harness(name, crates=None, cargo_args=None, repo=None, subcmd="check", tag="", kinds=("lib",)):
+def extract_harness(name, crates=None, cargo_args=None, repo=None, subcmd="check", tag="", kinds=("lib",), hdir=None, target_suffix=""):
     """Analyse a harness crate under /verif/harness/<name> that path-depends on /repo."""
     repo = repo or REPO
     crates = crates or [name]
-    hdir = os.path.join(VERIF, "harness", name)
+    hdir = hdir or os.path.join(VERIF, "harness", name)
     # the harness uses the repository's lock file
     lock = os.path.join(repo, "Cargo.lock")
     t0 = time.time()
     nonce = "%d-%d" % (os.getpid(), int(t0 * 1000))
-    target_dir = os.path.join(BUILD, "target-h-" + name)
+    target_dir = os.path.join(BUILD, "target-h-" + name + target_suffix)
     out_dir = os.path.join(BUILD, "facts", "h-%s-%s" % (name, nonce))
     os.makedirs(out_dir, exist_ok=True)
     extra_env = {}
